@@ -21,8 +21,12 @@ import (
 var c14Slots = []string{"csv", "html:A", "html:B", "json", "markdown", "text:utf8-heavy", "text:ascii-simple", "text:none", "text:utf8-double"}
 
 type C14Render struct {
-	Slot  int `json:"slot"`
-	Fresh int `json:"fresh"` // 0 reuse this slot's wrapper, 1 new Wrap, 2 package-level / auto entry
+	Slot  int `json:"slot"`  // -1: not a render but a cell appended to row AddRow of the table (see Add)
+	Fresh int `json:"fresh"` // 0 reuse this slot's wrapper, 1 new Wrap, 2 package-level / auto entry, 3 RenderTo of the reused wrapper into a failing writer (not judged; what follows is)
+	// Slot == -1: t.AllRows()[AddRow].Add(NewCell(Add)) between two renders; what is
+	// rendered afterwards is compared with a fresh table built WITH that cell
+	AddRow int       `json:"add_row,omitempty"`
+	Add    *ItemSpec `json:"add,omitempty"`
 }
 
 type C14Spec struct {
@@ -124,11 +128,27 @@ func init() {
 			var out []json.RawMessage
 			for ti, ts := range fixed {
 				for a := 0; a < len(c14Slots); a++ {
-					out = append(out, mustJSON(C14Spec{Table: ts, Props: ti == 0, Renders: []C14Render{{a, 0}, {a, 0}}}))
+					out = append(out, mustJSON(C14Spec{Table: ts, Props: ti == 0, Renders: []C14Render{{Slot: a}, {Slot: a}}}))
 					for b := 0; b < len(c14Slots); b++ {
 						out = append(out, mustJSON(C14Spec{Table: ts, Props: ti == 1, Misuse: b%2 == 0,
-							Renders: []C14Render{{a, (a + b) % 3}, {b, b % 3}, {a, (a + 1) % 3}, {b, 0}}}))
+							Renders: []C14Render{{Slot: a, Fresh: (a + b) % 3}, {Slot: b, Fresh: b % 3}, {Slot: a, Fresh: (a + 1) % 3}, {Slot: b}}}))
 					}
+				}
+			}
+			// a cell appended to an attached row between renders; a failed render of the reused wrapper
+			for ti, ts := range fixed {
+				for a := 0; a < len(c14Slots); a++ {
+					add := Str("late")
+					out = append(out, mustJSON(C14Spec{Table: ts, Props: ti == 1, Renders: []C14Render{{Slot: a}, {Slot: -1, AddRow: 2 * ti, Add: &add}, {Slot: a}, {Slot: (a + 4) % len(c14Slots), Fresh: 2}, {Slot: a}}}))
+					out = append(out, mustJSON(C14Spec{Table: ts, Renders: []C14Render{{Slot: a}, {Slot: a, Fresh: 3}, {Slot: a}, {Slot: a, Fresh: 3}, {Slot: a, Fresh: 1}, {Slot: a}}}))
+				}
+			}
+			// an item that encoding/json refuses: the JSON render fails the same way every time and records nothing
+			{
+				h := []ItemSpec{Str("k"), Str("v")}
+				ts := TableSpec{Header: &h, Rows: []RowSpec{{Cells: []ItemSpec{Str("a"), {K: "chan"}}}, {Cells: []ItemSpec{Str("b"), Str("c")}}}}
+				for a := 0; a < len(c14Slots); a++ {
+					out = append(out, mustJSON(C14Spec{Table: ts, Renders: []C14Render{{Slot: 3}, {Slot: a}, {Slot: 3, Fresh: 1}, {Slot: a, Fresh: 2}, {Slot: 3, Fresh: 2}}}))
 				}
 			}
 			n := 60
@@ -156,7 +176,14 @@ func init() {
 				k := 2 + r.Intn(11)
 				rs := make([]C14Render, k)
 				for j := range rs {
-					rs[j] = C14Render{r.Intn(len(c14Slots)), r.Intn(3)}
+					rs[j] = C14Render{Slot: r.Intn(len(c14Slots)), Fresh: r.Intn(3)}
+					if r.Pct(10) {
+						rs[j].Fresh = 3
+					}
+					if j > 0 && len(ts.Rows) > 0 && r.Pct(10) {
+						it := c14Text(r)
+						rs[j] = C14Render{Slot: -1, AddRow: r.Intn(len(ts.Rows)), Add: &it}
+					}
 				}
 				out = append(out, mustJSON(C14Spec{Table: ts, Props: r.Bool(), Misuse: r.Pct(30), Renders: rs}))
 			}
@@ -209,19 +236,44 @@ func init() {
 				}
 			}
 			var renders []string
-			// the reference for each slot: "the first time" = the same spec built
-			// afresh and rendered once through a fresh wrapper
+			// the reference for each (slot, epoch): "the first time" = the same spec,
+			// with the cells appended so far, built afresh and rendered once
+			// through a fresh wrapper
+			freshTable := func(epoch int) tabular.Table {
+				ft := tabular.New()
+				sp.Table.Build(ft)
+				k := 0
+				for _, rd := range sp.Renders {
+					if rd.Slot == -1 && rd.Add != nil && k < epoch {
+						k++
+						if rows := ft.AllRows(); rd.AddRow < len(rows) {
+							it, _ := rd.Add.Make()
+							rows[rd.AddRow].Add(tabular.NewCell(it))
+						}
+					}
+				}
+				return ft
+			}
 			seenSlot := map[int]bool{}
 			first := map[int]Outcome{}
+			epoch := 0
 			for _, rd := range sp.Renders {
-				if seenSlot[rd.Slot] {
+				if rd.Slot == -1 {
+					epoch++
 					continue
 				}
-				seenSlot[rd.Slot] = true
+				if rd.Fresh == 3 {
+					continue
+				}
+				id := rd.Slot + 100*epoch
+				if seenSlot[id] {
+					continue
+				}
+				seenSlot[id] = true
 				slot := c14Slots[rd.Slot]
+				e := epoch
 				ref := capture(func() (string, error) {
-					ft := tabular.New()
-					sp.Table.Build(ft)
+					ft := freshTable(e)
 					switch {
 					case slot == "csv":
 						return csv.Wrap(ft).Render()
@@ -238,8 +290,8 @@ func init() {
 					tt.SetDecorationNamed(slot[5:])
 					return tt.Render()
 				})
-				first[rd.Slot] = ref
-				renders = append(renders, cqPair(cqNat(rd.Slot), ref.Coq()))
+				first[id] = ref
+				renders = append(renders, cqPair(cqNat(id), ref.Coq()))
 			}
 			type shown struct {
 				Slot string
@@ -248,8 +300,57 @@ func init() {
 			var outs []shown
 			sig := ""
 			count := map[int]int{}
+			epoch = 0
+			after := ""
 			for _, rd := range sp.Renders {
+				if rd.Slot == -1 {
+					// the table changes: close the current snapshot pair, apply, open the next
+					after += c14Snapshot(t, keys) + "\x00"
+					if rows := t.AllRows(); rd.Add != nil && rd.AddRow < len(rows) {
+						it, _ := rd.Add.Make()
+						rows[rd.AddRow].Add(tabular.NewCell(it))
+					}
+					before += "\x00" + c14Snapshot(t, keys)
+					epoch++
+					continue
+				}
 				slot := c14Slots[rd.Slot]
+				if rd.Fresh == 3 {
+					// a render of the slot's reused wrapper into a failing writer
+					var w RenderW
+					switch {
+					case slot == "csv":
+						if wcsv == nil {
+							wcsv = csv.Wrap(t)
+						}
+						w = wcsv
+					case strings.HasPrefix(slot, "html:"):
+						if whtml == nil {
+							whtml = html.Wrap(t)
+						}
+						htmlCfg(whtml, slot[5:])
+						w = whtml
+					case slot == "json":
+						if wjson == nil {
+							wjson = tjson.Wrap(t)
+						}
+						w = wjson
+					case slot == "markdown":
+						if wmd == nil {
+							wmd = markdown.Wrap(t)
+						}
+						w = wmd
+					default:
+						if wtext == nil {
+							wtext = texttable.Wrap(t)
+						}
+						wtext.SetDecorationNamed(slot[5:])
+						w = wtext
+					}
+					capture(func() (string, error) { return "", w.RenderTo(&collectWriter{failAt: 1 + len(renders)%3}) })
+					continue
+				}
+				id := rd.Slot + 100*epoch
 				o := capture(func() (string, error) {
 					switch {
 					case slot == "csv":
@@ -313,18 +414,18 @@ func init() {
 						return auto.Render(t, d)
 					}
 				})
-				count[rd.Slot]++
-				if f, ok := first[rd.Slot]; !ok {
-					first[rd.Slot] = o
+				count[id]++
+				if f, ok := first[id]; !ok {
+					first[id] = o
 				} else if (f.Kind != o.Kind || string(f.Out) != string(o.Out)) && sig == "" {
 					sig = "output-changed:" + strings.SplitN(slot, ":", 2)[0]
 				}
-				renders = append(renders, cqPair(cqNat(rd.Slot), o.Coq()))
+				renders = append(renders, cqPair(cqNat(id), o.Coq()))
 				if len(outs) < 4 {
 					outs = append(outs, shown{slot, o})
 				}
 			}
-			after := c14Snapshot(t, keys)
+			after += c14Snapshot(t, keys)
 			if before != after && sig == "" {
 				sig = "snapshot-changed"
 			}
